@@ -15,6 +15,15 @@ def ivar (k : Nat) : SExpr := .idx k
 /-- the binding name `_in<k>` -/
 def inName (k : Nat) : String := "_in" ++ toString k
 
+/-- the bindings `_in<k> ↦ as[k - k0]` of `map_stack` / `map_concatenate`,
+    numbered from `k0` -/
+def inBindsFrom : Nat → List (Arr Val) → List (String × Arr Val)
+  | _, [] => []
+  | k, a :: as => (inName k, a) :: inBindsFrom (k + 1) as
+
+/-- `{f"_in{i}": array for i, array in enumerate(arrays)}` -/
+def inBinds (as : List (Arr Val)) : List (String × Arr Val) := inBindsFrom 0 as
+
 /-- `x - c` as pymbolic builds it for an integer constant `c` -/
 def subConst (x : SExpr) (c : Int) : SExpr := .add x (.int (-c))
 
